@@ -53,6 +53,16 @@ Proof. intros Hin l. apply cnt_ext. intros [sid st] _. unfold holds_stream. cbn.
 Lemma in_r1_drops s s' : drops s' = drops s -> forall sid, in_r1 s' sid = in_r1 s sid.
 Proof. intros E sid. unfold in_r1. now rewrite E. Qed.
 
+Lemma holds_stream_val s r sid st : holds_stream s r (sid, st) = rule_is r st && negb (in_r1 s sid).
+Proof. reflexivity. Qed.
+Lemma holds_task_val r r' pc : holds_task r (r', pc) = Nat.eqb r' r && match pc with R0 => true | R1 _ => false end.
+Proof. reflexivity. Qed.
+
+Lemma holds_add_pc r sid a : (forall c, a_pc a <> A2 c) -> holds_add r (sid, a) = false.
+Proof. intros H. unfold holds_add. cbn. destruct (a_pc a) eqn:E; try apply andb_false_r. destruct (H _ eq_refl). Qed.
+Lemma holds_add_a2 r sid a c : a_pc a = A2 c -> holds_add r (sid, a) = Nat.eqb (a_rule a) r.
+Proof. intros H. unfold holds_add. cbn. rewrite H. apply andb_true_r. Qed.
+
 Section Share.
 Variable matches : nat -> msg -> bool.
 Notation tstep := (Steps.tstep matches).
@@ -99,34 +109,413 @@ Proof.
     apply fresh_spec in H. destruct H as (_ & Hn & _). intros r0. specialize (C r0). unfold holders in *. cbn [subs streams adds tasks with_adds] in *.
     rewrite (S_pred s _ r0 (in_r1_drops s _ eq_refl)).
     pose proof (A_change s (with_adds s (put (adds s) sid {| a_rule := r; a_q := q; a_pc := A0 |})) sid r0 Ka Ka' (del_put _ _ _)) as HA.
-    unfold contrib_a in HA. cbn [adds with_adds] in HA. rewrite lookup_put_same, Hn in HA. unfold holds_add in HA. cbn in HA. rewrite andb_false_r in HA. cbn in HA.
+    unfold contrib_a in HA. cbn [adds with_adds] in HA. rewrite lookup_put_same, Hn in HA. rewrite holds_add_pc in HA by (intros c0; discriminate). cbn [b2n] in HA.
     destruct (lookup (subs s) r0); lia.
   - (* add check fails *)
     intros r0. specialize (C r0). unfold holders in *. cbn [subs streams adds tasks with_adds] in *. rewrite (S_pred s _ r0 (in_r1_drops s _ eq_refl)).
     pose proof (A_change s (with_adds s (del (adds s) sid)) sid r0 Ka Ka' (del_del _ _)) as HA.
-    unfold contrib_a in HA. cbn [adds with_adds] in HA. rewrite lookup_del_same, H in HA. unfold holds_add in HA. cbn in HA. rewrite H0, andb_false_r in HA. cbn in HA.
+    unfold contrib_a in HA. cbn [adds with_adds] in HA. rewrite lookup_del_same, H in HA. rewrite holds_add_pc in HA by (intros c0; congruence). cbn [b2n] in HA.
     destruct (lookup (subs s) r0); lia.
   - (* add check ok *)
     intros r0. specialize (C r0). unfold holders in *. cbn [subs streams adds tasks with_adds] in *. rewrite (S_pred s _ r0 (in_r1_drops s _ eq_refl)).
     pose proof (A_change s (with_adds s (put (adds s) sid (add_at a A1))) sid r0 Ka Ka' (del_put _ _ _)) as HA.
-    unfold contrib_a in HA. cbn [adds with_adds] in HA. rewrite lookup_put_same, H in HA. unfold holds_add in HA. cbn in HA. rewrite H0, !andb_false_r in HA. cbn in HA.
+    unfold contrib_a in HA. cbn [adds with_adds] in HA. rewrite lookup_put_same, H in HA.
+    rewrite (holds_add_pc r0 sid a) in HA by (intros c0; congruence). rewrite holds_add_pc in HA by (intros c0; cbn; discriminate). cbn [b2n] in HA.
     destruct (lookup (subs s) r0); lia.
-  - admit.
-  - admit.
-  - admit.
-  - admit.
-  - admit.
-  - admit.
-  - admit.
-  - admit.
-  - admit.
-  - admit.
-  - admit.
-  - admit.
-  - admit.
-  - admit.
-  - admit.
-  - admit.
-Admitted.
+  - (* occupied: one more holder, one more reference *)
+    subst c ch1 s1 s2. set (r1 := a_rule a) in *.
+    set (s' := with_adds _ _). assert (Es : streams s' = put (streams s) sid (mk_stream (Some r1) (e_ch e) (seen s (e_ch e)))) by reflexivity.
+    assert (Ed : drops s' = drops s) by reflexivity.
+    pose proof (inv_ids _ _ I _ _ H) as Hns. pose proof (live_no_drop _ _ _ I Hns) as Hnd.
+    intros r0. specialize (C r0). unfold holders in *.
+    pose proof (S_change s s' sid r0 Ks Ks' ltac:(rewrite Es; apply del_put) (fun sid' _ => in_r1_drops s s' Ed sid')) as HS.
+    pose proof (A_change s s' sid r0 Ka Ka' ltac:(apply del_del)) as HA.
+    unfold contrib_s in HS. rewrite (eq_trans (f_equal (fun l => lookup l sid) Es) (lookup_put_same _ _ _)), Hns in HS. rewrite holds_stream_val in HS.
+    rewrite (in_r1_drops s s' Ed) in HS. unfold in_r1 in HS. rewrite Hnd in HS. cbn [negb] in HS. rewrite andb_true_r in HS. rewrite (rule_is_eqb r0 r1) in HS by reflexivity.
+    unfold contrib_a in HA. change (adds s') with (del (adds s) sid) in HA at 2. rewrite lookup_del_same, H in HA. rewrite holds_add_pc in HA by (intros c0; congruence). cbn [b2n] in HA.
+    change (tasks s') with (tasks s). change (subs s') with (put (subs s) r1 {| e_ref := S (e_ref e); e_ch := e_ch e |}).
+    destruct (Nat.eq_dec r0 r1) as [->|Hne].
+    + rewrite lookup_put_same. rewrite H2 in C. rewrite Nat.eqb_refl in HS. cbn [e_ref b2n] in *. lia.
+    + rewrite lookup_put_other by assumption. replace (Nat.eqb r1 r0) with false in HS by (symmetry; apply Nat.eqb_neq; congruence). cbn [b2n] in HS.
+      destruct (lookup (subs s) r0); lia.
+  - (* vacant: the call itself is the one holder *)
+    subst c capacity s1 s2. set (r1 := a_rule a) in *. set (s' := with_adds _ _).
+    intros r0. specialize (C r0). unfold holders in *.
+    pose proof (A_change s s' sid r0 Ka Ka' ltac:(apply del_put)) as HA.
+    unfold contrib_a in HA. change (adds s') with (put (adds s) sid (add_at a (A2 (length (chans s))))) in HA at 2. rewrite lookup_put_same, H in HA.
+    rewrite (holds_add_pc r0 sid a) in HA by (intros c0; congruence). rewrite (holds_add_a2 r0 sid _ (length (chans s))) in HA by reflexivity. cbn [b2n a_rule add_at] in HA.
+    change (tasks s') with (tasks s). change (streams s') with (streams s). rewrite (S_pred s s' r0 (in_r1_drops s s' eq_refl)).
+    change (subs s') with (put (subs s) r1 {| e_ref := 1; e_ch := length (chans s) |}).
+    destruct (Nat.eq_dec r0 r1) as [->|Hne].
+    + rewrite lookup_put_same. rewrite H2 in C. fold r1 in HA. rewrite Nat.eqb_refl in HA. cbn [e_ref b2n] in *. lia.
+    + rewrite lookup_put_other by assumption. fold r1 in HA. replace (Nat.eqb r1 r0) with false in HA by (symmetry; apply Nat.eqb_neq; congruence). cbn [b2n] in HA.
+      destruct (lookup (subs s) r0); lia.
+  - (* add sender: the call hands its reference to the stream *)
+    set (r1 := a_rule a) in *. set (s' := with_adds _ _).
+    assert (Es : streams s' = put (streams s) sid (mk_stream (Some r1) c (seen s c))) by reflexivity. assert (Ed : drops s' = drops s) by reflexivity.
+    pose proof (inv_ids _ _ I _ _ H) as Hns. pose proof (live_no_drop _ _ _ I Hns) as Hnd.
+    intros r0. specialize (C r0). unfold holders in *.
+    pose proof (S_change s s' sid r0 Ks Ks' ltac:(rewrite Es; apply del_put) (fun sid' _ => in_r1_drops s s' Ed sid')) as HS.
+    pose proof (A_change s s' sid r0 Ka Ka' ltac:(apply del_del)) as HA.
+    unfold contrib_s in HS. rewrite (eq_trans (f_equal (fun l => lookup l sid) Es) (lookup_put_same _ _ _)), Hns in HS. rewrite holds_stream_val in HS.
+    rewrite (in_r1_drops s s' Ed) in HS. unfold in_r1 in HS. rewrite Hnd in HS. cbn [negb] in HS. rewrite andb_true_r in HS. rewrite (rule_is_eqb r0 r1) in HS by reflexivity.
+    unfold contrib_a in HA. change (adds s') with (del (adds s) sid) in HA at 2. rewrite lookup_del_same, H in HA. rewrite (holds_add_a2 r0 sid a c H0) in HA. fold r1 in HA.
+    change (tasks s') with (tasks s). change (subs s') with (subs s). destruct (lookup (subs s) r0); lia.
+  - (* unfiltered: no rule, no reference *)
+    apply fresh_spec in H. destruct H as (Hns & _). pose proof (live_no_drop _ _ _ I Hns) as Hnd. set (s' := with_streams _ _).
+    assert (Es : streams s' = put (streams s) sid (mk_stream None 0 (seen s 0))) by reflexivity. assert (Ed : drops s' = drops s) by reflexivity.
+    intros r0. specialize (C r0). unfold holders in *.
+    pose proof (S_change s s' sid r0 Ks Ks' ltac:(rewrite Es; apply del_put) (fun sid' _ => in_r1_drops s s' Ed sid')) as HS.
+    unfold contrib_s in HS. rewrite (eq_trans (f_equal (fun l => lookup l sid) Es) (lookup_put_same _ _ _)), Hns in HS. rewrite holds_stream_val in HS. unfold rule_is in HS. cbn [s_rule mk_stream andb b2n] in HS.
+    change (tasks s') with (tasks s). change (subs s') with (subs s). change (adds s') with (adds s). destruct (lookup (subs s) r0); lia.
+  - (* poll: the record changes, the rule does not *)
+    destruct H as [Hl Hd]. set (s' := with_streams _ _). assert (Es : streams s' = put (streams s) sid (got_more st x)) by reflexivity. assert (Ed : drops s' = drops s) by reflexivity.
+    intros r0. specialize (C r0). unfold holders in *.
+    pose proof (S_change s s' sid r0 Ks Ks' ltac:(rewrite Es; apply del_put) (fun sid' _ => in_r1_drops s s' Ed sid')) as HS.
+    unfold contrib_s in HS. rewrite (eq_trans (f_equal (fun l => lookup l sid) Es) (lookup_put_same _ _ _)), Hl in HS. rewrite !holds_stream_val in HS. rewrite (in_r1_drops s s' Ed) in HS.
+    change (rule_is r0 (got_more st x)) with (rule_is r0 st) in HS.
+    change (tasks s') with (tasks s). change (subs s') with (subs s). change (adds s') with (adds s). destruct (lookup (subs s) r0); lia.
+  - (* drop: the stream's reference passes to the queued remove_match *)
+    destruct H as [Hl Hd]. set (s' := with_tasks _ _). assert (Es : streams s' = del (streams s) sid) by reflexivity. assert (Ed : drops s' = drops s) by reflexivity.
+    intros r0. specialize (C r0). unfold holders in *.
+    pose proof (S_change s s' sid r0 Ks Ks' ltac:(rewrite Es; apply del_del) (fun sid' _ => in_r1_drops s s' Ed sid')) as HS.
+    unfold contrib_s in HS. rewrite (eq_trans (f_equal (fun l => lookup l sid) Es) (lookup_del_same _ _)), Hl in HS. rewrite holds_stream_val in HS. unfold in_r1 in HS. rewrite Hd in HS. cbn [negb] in HS.
+    rewrite andb_true_r, (rule_is_eqb r0 r st H0) in HS.
+    change (tasks s') with (tasks s ++ [(r, R0)]). rewrite cnt_app, cnt_one. rewrite holds_task_val, andb_true_r.
+    change (subs s') with (subs s). change (adds s') with (adds s). destruct (lookup (subs s) r0); lia.
+  - (* drop of an unfiltered stream *)
+    destruct H as [Hl Hd]. set (s' := bury _ _ _). assert (Es : streams s' = del (streams s) sid) by reflexivity. assert (Ed : drops s' = drops s) by reflexivity.
+    intros r0. specialize (C r0). unfold holders in *.
+    pose proof (S_change s s' sid r0 Ks Ks' ltac:(rewrite Es; apply del_del) (fun sid' _ => in_r1_drops s s' Ed sid')) as HS.
+    unfold contrib_s in HS. rewrite (eq_trans (f_equal (fun l => lookup l sid) Es) (lookup_del_same _ _)), Hl in HS. rewrite holds_stream_val in HS. unfold rule_is in HS. rewrite H0 in HS. cbn [andb b2n] in HS.
+    change (tasks s') with (tasks s). change (subs s') with (subs s). change (adds s') with (adds s). destruct (lookup (subs s) r0); lia.
+  - (* clone: excluded *) exfalso. eapply Hnc. reflexivity.
+  - (* async drop starts: still a holder *)
+    destruct H as [Hl Hd]. set (s' := with_drops _ _).
+    assert (Hin : forall sid', in_r1 s' sid' = in_r1 s sid').
+    { intros sid'. unfold in_r1. change (drops s') with (put (drops s) sid R0). destruct (Nat.eq_dec sid' sid) as [->|Hne]; [now rewrite lookup_put_same, Hd | now rewrite lookup_put_other]. }
+    intros r0. specialize (C r0). unfold holders in *. change (streams s') with (streams s). rewrite (S_pred s s' r0 Hin).
+    change (tasks s') with (tasks s). change (subs s') with (subs s). change (adds s') with (adds s). exact C.
+  - (* async drop of an unfiltered stream *)
+    destruct H as [Hl Hd]. set (s' := bury _ _ _). assert (Es : streams s' = del (streams s) sid) by reflexivity. assert (Ed : drops s' = drops s) by reflexivity.
+    intros r0. specialize (C r0). unfold holders in *.
+    pose proof (S_change s s' sid r0 Ks Ks' ltac:(rewrite Es; apply del_del) (fun sid' _ => in_r1_drops s s' Ed sid')) as HS.
+    unfold contrib_s in HS. rewrite (eq_trans (f_equal (fun l => lookup l sid) Es) (lookup_del_same _ _)), Hl in HS. rewrite holds_stream_val in HS. unfold rule_is in HS. rewrite H0 in HS. cbn [andb b2n] in HS.
+    change (tasks s') with (tasks s). change (subs s') with (subs s). change (adds s') with (adds s). destruct (lookup (subs s) r0); lia.
+  - (* async drop, subs, not the last reference (or no entry at all) *)
+    pose proof (rm_apply_frame _ _ _ _ H3) as (_ & Estr & Eadd & Edrp & Etsk & _). set (s' := with_drops _ _).
+    assert (Es : streams s' = del (streams s) sid) by (unfold s'; cbn [streams with_drops]; rewrite streams_bury; now rewrite Estr).
+    assert (Hin : forall sid', sid' <> sid -> in_r1 s' sid' = in_r1 s sid').
+    { intros sid' Hne. unfold in_r1, s'. cbn [drops with_drops]. rewrite Edrp. now rewrite lookup_del_other. }
+    assert (Hc1 : forall r0, cnt (holds_stream s' r0) (streams s') + b2n (Nat.eqb r r0) = cnt (holds_stream s r0) (streams s)).
+    { intros r0. pose proof (S_change s s' sid r0 Ks Ks' ltac:(rewrite Es; apply del_del) Hin) as HS.
+      unfold contrib_s in HS. rewrite (eq_trans (f_equal (fun l => lookup l sid) Es) (lookup_del_same _ _)), H in HS. rewrite holds_stream_val in HS.
+      unfold in_r1 in HS. rewrite H0 in HS. cbn [negb] in HS. rewrite andb_true_r, (rule_is_eqb r0 r st H2) in HS. lia. }
+    assert (Et : tasks s' = tasks s) by (unfold s'; cbn [tasks with_drops]; exact Etsk).
+    assert (Ea : adds s' = adds s) by (unfold s'; cbn [adds with_drops]; rewrite adds_bury; exact Eadd).
+    assert (Esub : subs s' = subs s1) by reflexivity.
+    apply rm_apply_spec in H3. intros r0. pose proof (C r0) as Cr0. pose proof (C r) as Cr. unfold holders in *. rewrite Et, Ea, Esub. specialize (Hc1 r0).
+    inversion H3 as [Hn Eq1 | e n Hle Hre Eq1 | |]; subst.
+    + (* no entry: then nobody holds the rule — but this stream does *)
+      rewrite Hn in Cr. destruct (Nat.eq_dec r0 r) as [->|Hne].
+      * rewrite Nat.eqb_refl in Hc1. cbn [b2n] in Hc1. rewrite Hn. lia.
+      * replace (Nat.eqb r r0) with false in Hc1 by (symmetry; apply Nat.eqb_neq; congruence). cbn [b2n] in Hc1. destruct (lookup (subs s1) r0); lia.
+    + cbn [subs with_subs]. rewrite Hle in Cr. destruct (Nat.eq_dec r0 r) as [->|Hne].
+      * rewrite lookup_put_same. rewrite Nat.eqb_refl in Hc1. cbn [b2n e_ref] in *. lia.
+      * rewrite lookup_put_other by assumption. replace (Nat.eqb r r0) with false in Hc1 by (symmetry; apply Nat.eqb_neq; congruence). cbn [b2n] in Hc1.
+        destruct (lookup (subs s) r0); lia.
+  - (* async drop, subs, last reference *)
+    pose proof (rm_apply_frame _ _ _ _ H3) as (_ & Estr & Eadd & Edrp & Etsk & _). set (s' := with_drops _ _).
+    assert (Es : streams s' = streams s) by (unfold s'; cbn [streams with_drops]; exact Estr).
+    assert (Hin : forall sid', sid' <> sid -> in_r1 s' sid' = in_r1 s sid').
+    { intros sid' Hne. unfold in_r1, s'. cbn [drops with_drops]. rewrite Edrp. now rewrite lookup_put_other. }
+    assert (Hc1 : forall r0, cnt (holds_stream s' r0) (streams s') + b2n (Nat.eqb r r0) = cnt (holds_stream s r0) (streams s)).
+    { intros r0. pose proof (S_change s s' sid r0 Ks Ks' ltac:(now rewrite Es) Hin) as HS.
+      unfold contrib_s in HS. rewrite Es, H in HS. rewrite !holds_stream_val in HS.
+      assert (E1 : in_r1 s' sid = true) by (unfold in_r1, s'; cbn [drops with_drops]; now rewrite lookup_put_same).
+      rewrite E1 in HS. unfold in_r1 in HS. rewrite H0 in HS. cbn [negb] in HS. rewrite andb_true_r, andb_false_r, (rule_is_eqb r0 r st H2) in HS. cbn [b2n] in HS. rewrite Es. lia. }
+    assert (Et : tasks s' = tasks s) by (unfold s'; cbn [tasks with_drops]; exact Etsk).
+    assert (Ea : adds s' = adds s) by (unfold s'; cbn [adds with_drops]; exact Eadd).
+    assert (Esub : subs s' = subs s1) by reflexivity.
+    apply rm_apply_spec in H3. intros r0. pose proof (C r0) as Cr0. pose proof (C r) as Cr. unfold holders in *. rewrite Et, Ea, Esub. specialize (Hc1 r0).
+    assert (Hsub1 : subs s1 = del (subs s) r /\ exists e, lookup (subs s) r = Some e /\ e_ref e <= 1).
+    { inversion H3; subst; cbn [subs with_subs set_chan with_chans]; split; try reflexivity; eauto. }
+    destruct Hsub1 as (Es1 & e & He & Hle). rewrite Es1. rewrite He in Cr. destruct (Nat.eq_dec r0 r) as [->|Hne].
+    + rewrite lookup_del_same. rewrite Nat.eqb_refl in Hc1. cbn [b2n] in Hc1. lia.
+    + rewrite lookup_del_other by assumption. replace (Nat.eqb r r0) with false in Hc1 by (symmetry; apply Nat.eqb_neq; congruence). cbn [b2n] in Hc1.
+      destruct (lookup (subs s) r0); lia.
+  - (* async drop, sender: the stream had given up its reference already *)
+    set (s' := with_drops _ _).
+    assert (Es : streams s' = del (streams s) sid) by (unfold s'; cbn [streams with_drops]; rewrite streams_bury; now rewrite streams_rm).
+    assert (Hin : forall sid', sid' <> sid -> in_r1 s' sid' = in_r1 s sid').
+    { intros sid' Hne. unfold in_r1, s'. cbn [drops with_drops]. now rewrite lookup_del_other. }
+    intros r0. specialize (C r0). unfold holders in *.
+    pose proof (S_change s s' sid r0 Ks Ks' ltac:(rewrite Es; apply del_del) Hin) as HS.
+    unfold contrib_s in HS. rewrite (eq_trans (f_equal (fun l => lookup l sid) Es) (lookup_del_same _ _)), H in HS. rewrite holds_stream_val in HS.
+    unfold in_r1 in HS. rewrite H0 in HS. cbn [negb] in HS. rewrite andb_false_r in HS. cbn [b2n] in HS.
+    assert (Et : tasks s' = tasks s) by (unfold s'; cbn [tasks with_drops]; change (tasks (bury (rm_sender s r) sid st)) with (tasks (rm_sender s r)); apply tasks_rm).
+    assert (Ea : adds s' = adds s) by (unfold s'; cbn [adds with_drops]; rewrite adds_bury; apply adds_rm).
+    assert (Esub : subs s' = subs s) by (unfold s'; cbn [subs with_drops]; change (subs (bury (rm_sender s r) sid st)) with (subs (rm_sender s r)); apply subs_rm).
+    rewrite Et, Ea, Esub. destruct (lookup (subs s) r0); lia.
+  - (* task, subs, not the last reference *)
+    pose proof (rm_apply_frame _ _ _ _ H1) as (_ & Estr & Eadd & Edrp & Etsk & _). set (s' := with_tasks _ _).
+    assert (Es : streams s' = streams s) by (unfold s'; cbn [streams with_tasks]; exact Estr).
+    assert (Ed : drops s' = drops s) by (unfold s'; cbn [drops with_tasks]; exact Edrp).
+    assert (Ea : adds s' = adds s) by (unfold s'; cbn [adds with_tasks]; exact Eadd).
+    assert (Hc1 : forall r0, cnt (holds_task r0) (tasks s') + b2n (Nat.eqb r r0) = cnt (holds_task r0) (tasks s)).
+    { intros r0. unfold s'. cbn [tasks with_tasks]. pose proof (cnt_del_nth (holds_task r0) (tasks s) n (r, R0) H) as Hx. rewrite holds_task_val, andb_true_r in Hx. exact Hx. }
+    assert (Esub : subs s' = subs s1) by reflexivity.
+    apply rm_apply_spec in H1. intros r0. pose proof (C r0) as Cr0. pose proof (C r) as Cr. unfold holders in *. rewrite Es, Ea, Esub, (S_pred s s' r0 (in_r1_drops s s' Ed)). specialize (Hc1 r0).
+    inversion H1 as [Hn Eq1 | e n0 Hle Hre Eq1 | |]; subst.
+    + rewrite Hn in Cr. destruct (Nat.eq_dec r0 r) as [->|Hne].
+      * rewrite Nat.eqb_refl in Hc1. cbn [b2n] in Hc1. rewrite Hn. lia.
+      * replace (Nat.eqb r r0) with false in Hc1 by (symmetry; apply Nat.eqb_neq; congruence). cbn [b2n] in Hc1. destruct (lookup (subs s1) r0); lia.
+    + cbn [subs with_subs]. rewrite Hle in Cr. destruct (Nat.eq_dec r0 r) as [->|Hne].
+      * rewrite lookup_put_same. rewrite Nat.eqb_refl in Hc1. cbn [b2n e_ref] in *. lia.
+      * rewrite lookup_put_other by assumption. replace (Nat.eqb r r0) with false in Hc1 by (symmetry; apply Nat.eqb_neq; congruence). cbn [b2n] in Hc1.
+        destruct (lookup (subs s) r0); lia.
+  - (* task, subs, last reference *)
+    pose proof (rm_apply_frame _ _ _ _ H1) as (_ & Estr & Eadd & Edrp & Etsk & _). set (s' := with_tasks _ _).
+    assert (Es : streams s' = streams s) by (unfold s'; cbn [streams with_tasks]; exact Estr).
+    assert (Ed : drops s' = drops s) by (unfold s'; cbn [drops with_tasks]; exact Edrp).
+    assert (Ea : adds s' = adds s) by (unfold s'; cbn [adds with_tasks]; exact Eadd).
+    assert (Hc1 : forall r0, cnt (holds_task r0) (tasks s') + b2n (Nat.eqb r r0) = cnt (holds_task r0) (tasks s)).
+    { intros r0. unfold s'. cbn [tasks with_tasks]. pose proof (cnt_upd (holds_task r0) (tasks s) n (r, R1 c) (r, R0) H) as Hx.
+      rewrite !holds_task_val, andb_true_r, andb_false_r in Hx. cbn [b2n] in Hx. lia. }
+    assert (Esub : subs s' = subs s1) by reflexivity.
+    apply rm_apply_spec in H1. intros r0. pose proof (C r0) as Cr0. pose proof (C r) as Cr. unfold holders in *. rewrite Es, Ea, Esub, (S_pred s s' r0 (in_r1_drops s s' Ed)). specialize (Hc1 r0).
+    assert (Hsub1 : subs s1 = del (subs s) r /\ exists e, lookup (subs s) r = Some e /\ e_ref e <= 1).
+    { inversion H1; subst; cbn [subs with_subs set_chan with_chans]; split; try reflexivity; eauto. }
+    destruct Hsub1 as (Es1 & e & He & Hle). rewrite Es1. rewrite He in Cr. destruct (Nat.eq_dec r0 r) as [->|Hne].
+    + rewrite lookup_del_same. rewrite Nat.eqb_refl in Hc1. cbn [b2n] in Hc1. lia.
+    + rewrite lookup_del_other by assumption. replace (Nat.eqb r r0) with false in Hc1 by (symmetry; apply Nat.eqb_neq; congruence). cbn [b2n] in Hc1.
+      destruct (lookup (subs s) r0); lia.
+  - (* task, sender *)
+    set (s' := with_tasks _ _).
+    assert (Es : streams s' = streams s) by (unfold s'; cbn [streams with_tasks]; apply streams_rm).
+    assert (Ed : drops s' = drops s) by (unfold s'; cbn [drops with_tasks]; apply drops_rm).
+    assert (Ea : adds s' = adds s) by (unfold s'; cbn [adds with_tasks]; apply adds_rm).
+    assert (Esub : subs s' = subs s) by (unfold s'; cbn [subs with_tasks]; apply subs_rm).
+    intros r0. specialize (C r0). unfold holders in *. rewrite Es, Ea, Esub, (S_pred s s' r0 (in_r1_drops s s' Ed)).
+    unfold s'. cbn [tasks with_tasks]. pose proof (cnt_del_nth (holds_task r0) (tasks s) n (r, R1 c) H) as Hx. rewrite holds_task_val, andb_false_r in Hx. cbn [b2n] in Hx.
+    destruct (lookup (subs s) r0); lia.
+Qed.
+
+Definition chan_agree (s : sys) : Prop :=
+  forall sid st r e, lookup (streams s) sid = Some st -> s_rule st = Some r -> in_r1 s sid = false -> lookup (subs s) r = Some e -> s_ch st = e_ch e.
+
+Lemma agree_step s l s' : tstep s l s' -> Inv s -> keys_ok s -> (forall a b, l <> LClone a b) -> count_ok s -> chan_agree s -> chan_agree s'.
+Proof.
+  intros Hs I [Ks Ka] Hnc C G sid0 st0 r0 e0 Hl Hr Hin He.
+  (* the generic case: the stream and the entry (or one with the same channel) were there before *)
+  assert (Hgen : forall st1 e1, lookup (streams s) sid0 = Some st1 -> s_rule st1 = Some r0 -> s_ch st1 = s_ch st0 -> in_r1 s sid0 = false ->
+                   lookup (subs s) r0 = Some e1 -> e_ch e1 = e_ch e0 -> s_ch st0 = e_ch e0).
+  { intros st1 e1 Hl1 Hr1 Hc1 Hin1 He1 Hce. rewrite <- Hc1, <- Hce. eapply G; eassumption. }
+  destruct Hs; try (eapply Hgen; [exact Hl | exact Hr | reflexivity | exact Hin | exact He | reflexivity]).
+  - (* occupied *) subst c ch1 s1 s2. cbn [streams subs with_adds with_streams with_subs set_chan with_chans] in Hl, He.
+    assert (Hin' : in_r1 s sid0 = false) by exact Hin.
+    destruct (Nat.eq_dec sid0 sid) as [->|Hne].
+    + rewrite lookup_put_same in Hl. inversion Hl; subst st0. cbn in Hr. inversion Hr; subst r0. rewrite lookup_put_same in He. inversion He; subst e0. reflexivity.
+    + rewrite lookup_put_other in Hl by assumption. destruct (Nat.eq_dec r0 (a_rule a)) as [->|Hnr].
+      * rewrite lookup_put_same in He. inversion He; subst e0. cbn. eapply G; eassumption.
+      * rewrite lookup_put_other in He by assumption. eapply G; eassumption.
+  - (* vacant: nobody holds the rule, so no stream of the rule is around *)
+    subst c capacity s1 s2. cbn [streams subs with_adds with_subs with_chans] in Hl, He. assert (Hin' : in_r1 s sid0 = false) by exact Hin.
+    destruct (Nat.eq_dec r0 (a_rule a)) as [->|Hnr]; [|rewrite lookup_put_other in He by assumption; eapply G; eassumption].
+    exfalso. specialize (C (a_rule a)). rewrite H2 in C. unfold holders in C.
+    assert (Hz : cnt (holds_stream s (a_rule a)) (streams s) = 0) by lia. rewrite cnt_zero_iff in Hz. specialize (Hz (sid0, st0) (lookup_in _ _ _ Hl)).
+    rewrite holds_stream_val, Hin', (rule_is_eqb _ _ _ Hr), Nat.eqb_refl in Hz. discriminate.
+  - (* add sender *) cbn [streams subs with_adds with_streams with_senders] in Hl, He. assert (Hin' : in_r1 s sid0 = false) by exact Hin.
+    destruct (Nat.eq_dec sid0 sid) as [->|Hne]; [|rewrite lookup_put_other in Hl by assumption; eapply G; eassumption].
+    rewrite lookup_put_same in Hl. inversion Hl; subst st0. cbn in Hr. inversion Hr; subst r0. cbn.
+    destruct (inv_a2 _ _ I sid (a_rule a) c) as ((e & He1 & Hc1) & _); [exists a; tauto|]. congruence.
+  - (* unfiltered *) cbn [streams subs with_streams set_chan with_chans] in Hl, He. assert (Hin' : in_r1 s sid0 = false) by exact Hin.
+    destruct (Nat.eq_dec sid0 sid) as [->|Hne]; [rewrite lookup_put_same in Hl; inversion Hl; subst; discriminate|].
+    rewrite lookup_put_other in Hl by assumption. eapply G; eassumption.
+  - (* poll *) destruct H as [Hl0 Hd]. cbn [streams subs with_streams set_chan with_chans] in Hl, He. assert (Hin' : in_r1 s sid0 = false) by exact Hin.
+    destruct (Nat.eq_dec sid0 sid) as [->|Hne]; [|rewrite lookup_put_other in Hl by assumption; eapply G; eassumption].
+    rewrite lookup_put_same in Hl. inversion Hl; subst st0. cbn in *. eapply G; eassumption.
+  - (* drop *) cbn [streams with_tasks] in Hl. rewrite streams_bury in Hl. apply in_del_lookup in Hl. eapply G; eassumption.
+  - rewrite streams_bury in Hl. apply in_del_lookup in Hl. eapply G; eassumption.
+  - exfalso. eapply Hnc. reflexivity.
+  - (* async drop starts *) destruct H as [Hl0 Hd]. cbn [streams subs with_drops] in Hl, He.
+    assert (Hin' : in_r1 s sid0 = false).
+    { unfold in_r1 in *. cbn [drops with_drops] in Hin. destruct (Nat.eq_dec sid0 sid) as [->|Hne]; [now rewrite Hd | now rewrite lookup_put_other in Hin]. }
+    eapply G; eassumption.
+  - rewrite streams_bury in Hl. apply in_del_lookup in Hl. eapply G; eassumption.
+  - (* async drop, subs, done *)
+    pose proof (rm_apply_frame _ _ _ _ H3) as (_ & Estr & _ & Edrp & _). cbn [streams subs with_drops] in Hl, He. rewrite streams_bury, Estr in Hl.
+    change (subs (bury s1 sid st)) with (subs s1) in He.
+    destruct (Nat.eq_dec sid0 sid) as [->|Hne]; [now rewrite lookup_del_same in Hl|]. rewrite lookup_del_other in Hl by assumption.
+    assert (Hin' : in_r1 s sid0 = false) by (unfold in_r1 in *; cbn [drops with_drops] in Hin; change (drops (bury s1 sid st)) with (drops s1) in Hin; rewrite Edrp in Hin; now rewrite lookup_del_other in Hin).
+    apply rm_apply_spec, rm_spec_tables in H3. destruct H3 as (_ & _ & _ & _ & _ & _ & Eoth & Erm).
+    destruct (Nat.eq_dec r0 r) as [->|Hnr]; [|rewrite (Eoth _ Hnr) in He; eapply G; eassumption].
+    destruct (lookup (subs s) r) as [e1|] eqn:E1; [|congruence]. destruct Erm as (e' & He' & Hce). rewrite He' in He. inversion He; subst e0.
+    rewrite Hce. eapply G; eassumption.
+  - (* async drop, subs, wait *)
+    pose proof (rm_apply_frame _ _ _ _ H3) as (_ & Estr & _ & Edrp & _). cbn [streams subs with_drops] in Hl, He. rewrite Estr in Hl.
+    assert (Hne : sid0 <> sid) by (intros ->; unfold in_r1 in Hin; cbn [drops with_drops] in Hin; rewrite lookup_put_same in Hin; discriminate).
+    assert (Hin' : in_r1 s sid0 = false) by (unfold in_r1 in *; cbn [drops with_drops] in Hin; rewrite Edrp in Hin; now rewrite lookup_put_other in Hin).
+    apply rm_apply_spec, rm_spec_tables in H3. destruct H3 as (_ & _ & _ & _ & _ & _ & Eoth & (En & _)).
+    destruct (Nat.eq_dec r0 r) as [->|Hnr]; [congruence|]. rewrite (Eoth _ Hnr) in He. eapply G; eassumption.
+  - (* async drop, sender *)
+    cbn [streams subs with_drops] in Hl, He. rewrite streams_bury, streams_rm in Hl. change (subs (bury (rm_sender s r) sid st)) with (subs (rm_sender s r)) in He. rewrite subs_rm in He.
+    destruct (Nat.eq_dec sid0 sid) as [->|Hne]; [now rewrite lookup_del_same in Hl|]. rewrite lookup_del_other in Hl by assumption.
+    assert (Hin' : in_r1 s sid0 = false) by (unfold in_r1 in *; cbn [drops with_drops] in Hin; now rewrite lookup_del_other in Hin).
+    eapply G; eassumption.
+  - (* task, subs, done *)
+    pose proof (rm_apply_frame _ _ _ _ H1) as (_ & Estr & _ & Edrp & _). cbn [streams subs with_tasks] in Hl, He. rewrite Estr in Hl.
+    assert (Hin' : in_r1 s sid0 = false) by (unfold in_r1 in *; cbn [drops with_tasks] in Hin; now rewrite Edrp in Hin).
+    apply rm_apply_spec, rm_spec_tables in H1. destruct H1 as (_ & _ & _ & _ & _ & _ & Eoth & Erm).
+    destruct (Nat.eq_dec r0 r) as [->|Hnr]; [|rewrite (Eoth _ Hnr) in He; eapply G; eassumption].
+    destruct (lookup (subs s) r) as [e1|] eqn:E1; [|congruence]. destruct Erm as (e' & He' & Hce). rewrite He' in He. inversion He; subst e0.
+    rewrite Hce. eapply G; eassumption.
+  - (* task, subs, wait *)
+    pose proof (rm_apply_frame _ _ _ _ H1) as (_ & Estr & _ & Edrp & _). cbn [streams subs with_tasks] in Hl, He. rewrite Estr in Hl.
+    assert (Hin' : in_r1 s sid0 = false) by (unfold in_r1 in *; cbn [drops with_tasks] in Hin; now rewrite Edrp in Hin).
+    apply rm_apply_spec, rm_spec_tables in H1. destruct H1 as (_ & _ & _ & _ & _ & _ & Eoth & (En & _)).
+    destruct (Nat.eq_dec r0 r) as [->|Hnr]; [congruence|]. rewrite (Eoth _ Hnr) in He. eapply G; eassumption.
+  - (* task, sender *)
+    cbn [streams subs with_tasks] in Hl, He. rewrite streams_rm in Hl. rewrite subs_rm in He.
+    assert (Hin' : in_r1 s sid0 = false) by (unfold in_r1 in *; cbn [drops with_tasks] in Hin; now rewrite drops_rm in Hin).
+    eapply G; eassumption.
+Qed.
+
+(* ---- an entry of `subscriptions` has its sender in msg_senders, unless it is just being created or the reader has failed;
+   a remove_match between its two steps has taken its entry away; a call in A2 is the only holder of its entry ---- *)
+Definition ereg (s : sys) : Prop :=
+  (forall r e, lookup (subs s) r = Some e -> In (KRule r, e_ch e) (senders s) \/ (exists sid, a2 s sid r (e_ch e)) \/ reader s = RStopped) /\
+  (forall r c, r1 s r c -> lookup (subs s) r = None) /\
+  (forall sid r c e, a2 s sid r c -> lookup (subs s) r = Some e -> e_ref e = 1) /\
+  (In (KAll, 0) (senders s) \/ reader s = RStopped).
+
+Lemma stopped_stays s l s' : tstep s l s' -> reader s = RStopped -> reader s' = RStopped.
+Proof.
+  intros Hs Hr. destruct Hs; cbn [reader with_reader with_socket with_incoming with_adds with_streams with_subs with_chans with_senders with_cloned
+                                  with_drops with_tasks with_dead set_chan bury]; try congruence; try assumption;
+    try (match goal with Hx : rm_apply _ _ = _ |- _ => pose proof (rm_apply_frame _ _ _ _ Hx) as (_ & _ & _ & _ & _ & Erd & _); congruence end);
+    try (rewrite reader_rm; assumption).
+Qed.
+
+(* the reader stays stopped; KAll stays registered until the reader fails *)
+Lemma kall_step s l s' : tstep s l s' -> (In (KAll, 0) (senders s) \/ reader s = RStopped) -> In (KAll, 0) (senders s') \/ reader s' = RStopped.
+Proof.
+  intros Hs [Hin|Hst]; [|right; eapply stopped_stays; eassumption].
+  destruct Hs; try (left; exact Hin).
+  - right. reflexivity.
+  - left. cbn [senders with_adds with_streams with_senders]. apply in_app_iff. now left.
+  - left. pose proof (rm_apply_frame _ _ _ _ H3) as (Esn & _). cbn [senders with_drops]. change (senders (bury s1 sid st)) with (senders s1). now rewrite Esn.
+  - left. pose proof (rm_apply_frame _ _ _ _ H3) as (Esn & _). cbn [senders with_drops]. now rewrite Esn.
+  - left. cbn [senders with_drops]. change (senders (bury (rm_sender s r) sid st)) with (senders (rm_sender s r)). rewrite senders_rm. apply in_del_key. split; [assumption | discriminate].
+  - left. pose proof (rm_apply_frame _ _ _ _ H1) as (Esn & _). cbn [senders with_tasks]. now rewrite Esn.
+  - left. pose proof (rm_apply_frame _ _ _ _ H1) as (Esn & _). cbn [senders with_tasks]. now rewrite Esn.
+  - left. cbn [senders with_tasks]. rewrite senders_rm. apply in_del_key. split; [assumption | discriminate].
+Qed.
+
+(* while somebody holds `subscriptions`, the table does not change *)
+Lemma busy_subs_same s l s' : tstep s l s' -> subs_busy s = true -> subs s' = subs s.
+Proof.
+  intros Hs Hb. destruct Hs; try reflexivity; try congruence.
+  - cbn [subs with_drops]. change (subs (bury (rm_sender s r) sid st)) with (subs (rm_sender s r)). apply subs_rm.
+  - cbn [subs with_tasks]. apply subs_rm.
+Qed.
+
+Lemma busy_of_a2 s sid r c : a2 s sid r c -> subs_busy s = true.
+Proof. intros Ha. destruct (subs_busy s) eqn:E; [reflexivity|]. destruct (not_busy_a2 s sid r c E Ha). Qed.
+Lemma busy_of_r1 s r c : r1 s r c -> subs_busy s = true.
+Proof. intros Hr. destruct (subs_busy s) eqn:E; [reflexivity|]. destruct (not_busy_r1 s r c E Hr). Qed.
+
+(* where a new holder of `subscriptions` comes from *)
+Lemma a2_new s l s' sid r c : tstep s l s' -> Inv s -> a2 s' sid r c ->
+  a2 s sid r c \/ (subs_busy s = false /\ lookup (subs s') r = Some {| e_ref := 1; e_ch := c |}).
+Proof.
+  intros Hs I Ha. destruct (holders_step _ _ _ _ Hs I) as [[Hback _]|[(Hb & _ & _)|(Hb & Hno)]]; [left; now apply Hback | | destruct (Hno _ _ _ Ha)].
+  (* the step made a new call in A2: it can only be LAddSubs on the vacant path *)
+  destruct Hs; try (left; exact Ha); try (exfalso; eapply (not_busy_a2 s); [exact Hb|]; first [exact Ha | eapply a2_ext; [|exact Ha]; reflexivity]).
+  - left. eapply a2_put_other with (3 := Ha); [reflexivity | intros c1; discriminate].
+  - left. match type of Ha with a2 ?s1 _ _ _ => apply (a2_del s s1 sid0 sid r c eq_refl) in Ha end. apply Ha.
+  - left. eapply a2_put_other with (3 := Ha); [reflexivity | intros c1; cbn; discriminate].
+  - left. match type of Ha with a2 ?s1 _ _ _ => apply (a2_del s s1 sid0 sid r c eq_refl) in Ha end. apply Ha.
+  - (* vacant *) subst c0 capacity s1 s2. destruct Ha as (a' & Ha' & Hr' & Hp'). cbn [adds with_adds] in Ha'. destruct (Nat.eq_dec sid sid0) as [->|Hne].
+    + rewrite lookup_put_same in Ha'. inversion Ha'; subst a'. cbn in Hr', Hp'. inversion Hp'; subst c. subst r. right. split; [assumption|].
+      cbn [subs with_adds with_subs]. apply lookup_put_same.
+    + rewrite lookup_put_other in Ha' by assumption. left. exists a'. tauto.
+  - left. match type of Ha with a2 ?s1 _ _ _ => apply (a2_del s s1 sid0 sid r c eq_refl) in Ha end. apply Ha.
+  - exfalso. pose proof (rm_apply_frame _ _ _ _ H3) as (_ & _ & Eadd & _). eapply (not_busy_a2 s); [exact Hb|]. eapply a2_ext; [|exact Ha]. cbn [adds with_drops]. rewrite adds_bury. exact Eadd.
+  - exfalso. pose proof (rm_apply_frame _ _ _ _ H3) as (_ & _ & Eadd & _). eapply (not_busy_a2 s); [exact Hb|]. eapply a2_ext; [|exact Ha]. cbn [adds with_drops]. exact Eadd.
+  - left. eapply a2_ext; [|exact Ha]. cbn [adds with_drops]. rewrite adds_bury. apply adds_rm.
+  - exfalso. pose proof (rm_apply_frame _ _ _ _ H1) as (_ & _ & Eadd & _). eapply (not_busy_a2 s); [exact Hb|]. eapply a2_ext; [|exact Ha]. cbn [adds with_tasks]. exact Eadd.
+  - exfalso. pose proof (rm_apply_frame _ _ _ _ H1) as (_ & _ & Eadd & _). eapply (not_busy_a2 s); [exact Hb|]. eapply a2_ext; [|exact Ha]. cbn [adds with_tasks]. exact Eadd.
+  - left. eapply a2_ext; [|exact Ha]. cbn [adds with_tasks]. apply adds_rm.
+Qed.
+
+Lemma r1_new s l s' r c : tstep s l s' -> Inv s -> r1 s' r c -> r1 s r c \/ (subs_busy s = false /\ lookup (subs s') r = None).
+Proof.
+  intros Hs I Hr. destruct (holders_step _ _ _ _ Hs I) as [[_ Hback]|[(Hb & _ & Hno)|(Hb & _)]]; [left; now apply Hback | destruct (Hno _ _ Hr) |].
+  (* the step made a new remove_match wait: it took the entry of its rule away *)
+  assert (Hold : r1 s r c -> False) by (intros Hx; exact (not_busy_r1 s r c Hb Hx)).
+  destruct Hs; try (exfalso; apply Hold; exact Hr).
+  - (* occupied *) left. subst c0 ch1 s1 s2. pose proof (inv_ids _ _ I _ _ H) as Hns. pose proof (live_no_drop _ _ _ I Hns) as Hnd.
+    eapply r1_agree; [| | |exact Hr]; try reflexivity. intros sid' pc Hd. cbn [streams with_adds with_streams with_subs set_chan with_chans].
+    apply lookup_put_other. intros ->. congruence.
+  - left. pose proof (inv_ids _ _ I _ _ H) as Hns. pose proof (live_no_drop _ _ _ I Hns) as Hnd.
+    eapply r1_agree; [| | |exact Hr]; try reflexivity. intros sid' pc Hd. cbn [streams with_adds with_streams with_senders]. apply lookup_put_other. intros ->. congruence.
+  - left. apply fresh_spec in H. destruct H as (Hns & _). pose proof (live_no_drop _ _ _ I Hns) as Hnd.
+    eapply r1_agree; [| | |exact Hr]; try reflexivity. intros sid' pc Hd. cbn [streams with_streams set_chan with_chans]. apply lookup_put_other. intros ->. congruence.
+  - left. destruct H as [Hl Hd0]. eapply r1_agree; [| | |exact Hr]; try reflexivity. intros sid' pc Hd. cbn [streams with_streams set_chan with_chans].
+    apply lookup_put_other. intros ->. congruence.
+  - (* drop *) left. destruct H as [Hl Hd0]. destruct Hr as [(sid' & st' & Hd' & Hs' & Hr')|Hin].
+    + left. cbn [drops streams with_tasks] in Hd', Hs'. rewrite streams_bury in Hs'. apply in_del_lookup in Hs'. exists sid', st'. tauto.
+    + right. cbn [tasks with_tasks] in Hin. change (tasks (bury s sid st)) with (tasks s) in Hin. now apply in_app_r0 in Hin.
+  - left. destruct H as [Hl Hd0]. destruct Hr as [(sid' & st' & Hd' & Hs' & Hr')|Hin]; [left | now right].
+    rewrite streams_bury in Hs'. apply in_del_lookup in Hs'. exists sid', st'. tauto.
+  - left. destruct H as [Hl Hd0]. apply fresh_spec in H0. destruct H0 as (Hns & _). pose proof (live_no_drop _ _ _ I Hns) as Hnd.
+    eapply r1_agree; [| | |exact Hr]; try reflexivity. intros sid' pc Hd. cbn [streams with_cloned with_streams set_chan with_chans]. apply lookup_put_other. intros ->. congruence.
+  - (* async drop starts *) left. destruct H as [Hl Hd0]. destruct Hr as [(sid' & st' & Hd' & Hs' & Hr')|Hin]; [left | now right].
+    cbn [drops streams with_drops] in Hd', Hs'. destruct (Nat.eq_dec sid' sid) as [->|Hne]; [rewrite lookup_put_same in Hd'; discriminate|].
+    rewrite lookup_put_other in Hd' by assumption. exists sid', st'. tauto.
+  - left. destruct H as [Hl Hd0]. destruct Hr as [(sid' & st' & Hd' & Hs' & Hr')|Hin]; [left | now right].
+    rewrite streams_bury in Hs'. apply in_del_lookup in Hs'. exists sid', st'. tauto.
+  - (* async drop, subs, done *) exfalso. apply Hold. pose proof (rm_apply_frame _ _ _ _ H3) as (_ & Estr & _ & Edrp & Etsk & _).
+    destruct Hr as [(sid' & st' & Hd' & Hs' & Hr')|Hin].
+    + left. cbn [drops streams with_drops] in Hd', Hs'. rewrite streams_bury, Estr in Hs'. rewrite Edrp in Hd'. apply in_del_lookup in Hs'. apply in_del_lookup in Hd'. exists sid', st'. tauto.
+    + right. cbn [tasks with_drops] in Hin. change (tasks (bury s1 sid st)) with (tasks s1) in Hin. now rewrite Etsk in Hin.
+  - (* async drop, subs, wait: this is the one *)
+    pose proof (rm_apply_frame _ _ _ _ H3) as (_ & Estr & _ & Edrp & Etsk & _). destruct Hr as [(sid' & st' & Hd' & Hs' & Hr')|Hin].
+    + cbn [drops streams with_drops] in Hd', Hs'. rewrite Estr in Hs'. rewrite Edrp in Hd'. destruct (Nat.eq_dec sid' sid) as [->|Hne].
+      * rewrite H in Hs'. inversion Hs'; subst st'. rewrite H2 in Hr'. inversion Hr'; subst r0. right. split; [assumption|]. cbn [subs with_drops].
+        apply rm_apply_spec, rm_spec_tables in H3. tauto.
+      * rewrite lookup_put_other in Hd' by assumption. exfalso. eapply (not_busy_r1 s r c); [assumption|]. left. exists sid', st'. tauto.
+    + exfalso. cbn [tasks with_drops] in Hin. rewrite Etsk in Hin. eapply (not_busy_r1 s r c); [assumption | now right].
+  - (* async drop, sender *) left. destruct Hr as [(sid' & st' & Hd' & Hs' & Hr')|Hin].
+    + left. cbn [drops streams with_drops] in Hd', Hs'. rewrite streams_bury, streams_rm in Hs'. apply in_del_lookup in Hs'. apply in_del_lookup in Hd'. exists sid', st'. tauto.
+    + right. cbn [tasks with_drops] in Hin. change (tasks (bury (rm_sender s r0) sid st)) with (tasks (rm_sender s r0)) in Hin. now rewrite tasks_rm in Hin.
+  - (* task, subs, done *) exfalso. apply Hold. pose proof (rm_apply_frame _ _ _ _ H1) as (_ & Estr & _ & Edrp & Etsk & _).
+    destruct Hr as [(sid' & st' & Hd' & Hs' & Hr')|Hin].
+    + left. cbn [drops streams with_tasks] in Hd', Hs'. rewrite Estr in Hs'. rewrite Edrp in Hd'. exists sid', st'. tauto.
+    + right. cbn [tasks with_tasks] in Hin. eapply in_del_nth; eassumption.
+  - (* task, subs, wait: this is the one *)
+    pose proof (rm_apply_frame _ _ _ _ H1) as (_ & Estr & _ & Edrp & Etsk & _). destruct Hr as [(sid' & st' & Hd' & Hs' & Hr')|Hin].
+    + exfalso. cbn [drops streams with_tasks] in Hd', Hs'. rewrite Estr in Hs'. rewrite Edrp in Hd'. eapply (not_busy_r1 s r c); [assumption|]. left. exists sid', st'. tauto.
+    + cbn [tasks with_tasks] in Hin. apply in_upd in Hin. destruct Hin as [E|Hin].
+      * inversion E; subst. right. split; [assumption|]. cbn [subs with_tasks]. apply rm_apply_spec, rm_spec_tables in H1. tauto.
+      * exfalso. eapply (not_busy_r1 s r c); [assumption | now right].
+  - (* task, sender *) left. destruct Hr as [(sid' & st' & Hd' & Hs' & Hr')|Hin].
+    + left. cbn [drops streams with_tasks] in Hd', Hs'. rewrite streams_rm in Hs'. rewrite drops_rm in Hd'. exists sid', st'. tauto.
+    + right. cbn [tasks with_tasks] in Hin. eapply in_del_nth; eassumption.
+Qed.
+
+(* ---- the invariant along every history without clone ---- *)
+Definition no_clone (tr : list label) : Prop := forall a b, ~ In (LClone a b) tr.
+
+Theorem share_reach tr s : reach tr s -> no_clone tr -> count_ok s /\ chan_agree s.
+Proof.
+  induction 1 as [|tr s l s' Hr IH Hs]; intros Hnc.
+  - split; [intros r; cbn; reflexivity | intros sid st r e Hl; discriminate].
+  - assert (Hnc' : no_clone tr) by (intros a b Hin; apply (Hnc a b), in_app_iff; now left).
+    assert (Hl : forall a b, l <> LClone a b) by (intros a b ->; apply (Hnc a b), in_app_iff; right; now left).
+    destruct (IH Hnc') as [C G]. pose proof (Inv_reach _ _ _ Hr) as I. pose proof (keys_reach _ _ Hr) as K. apply step_tstep in Hs.
+    pose proof (keys_step _ _ _ Hs K) as K'. split; [eapply count_step; eassumption | eapply agree_step; eassumption].
+Qed.
 
 End Share.
